@@ -149,7 +149,10 @@ def oracle(line: str, obs: Obs):
                 c = l.split(" ")[1]
                 d = kv(l)
                 state[c] = d["state"]
-                conn_peer[c] = d["ident"] if d["ident"] != "-" else d["name"]
+                # the configured peer of a connection: the name it was dialled under, else the identity it announced
+                # (identities are host names: compared without regard to case)
+                nm = d["name"] if d["name"] != "-" else d["ident"]
+                conn_peer[c] = next((p for p in peers if p.lower() == nm.lower()), nm)
     return fails
 
 
@@ -206,6 +209,27 @@ def scenarios(rng: random.Random, tier: str):
             out.append(pre + " | " + " | ".join(evs[i:i + 12]))
     # handler raises -> 5012
     out.append(pre + " | outcome 0 raise | rx 0 " + nodegen.ccr(77001, 77002, "peer1.x"))
+    # routing table corners: one application registered for peers of different realms; connections the node
+    # dialled itself, the peer announcing its name in another spelling; a known peer configured for no application
+    def req(conn, host, realm, app=4):
+        hbh[0] += 1
+        d = nodegen.ccr(hbh[0], 9000 + hbh[0], host, realm, app)
+        meta[d] = {"missing": [], "has_dr": True, "realm": realm, "ans_has_fa": True, "cls": "CreditControlRequest"}
+        return f"rx {conn} {d}"
+    xr = ("NODE host=node.local;realm=realm.local;peer:peer1.x,realm.local,0,0,30,1,0,-,-,-,-;"
+          "peer:peer2.x,realm.b,0,0,30,1,0,-,-,-,-;peer:peer3.x,realm.c,0,0,30,1,0,-,-,-,-;"
+          "app:4,1,0,b,0,0+1,-;app:3,0,1,b,0,1+2,extra.realm")
+    prex = xr + " | start | acc | acc | acc | " + handshake(0, "peer1.x") + " | " + handshake(1, "peer2.x") + " | " + handshake(2, "peer3.x")
+    for conn, host in ((0, "peer1.x"), (1, "peer2.x"), (2, "peer3.x")):
+        out.append(prex + " | " + " | ".join(req(conn, host, r, a) for r in ("realm.local", "realm.b", "realm.c", "extra.realm", "foreign.realm")
+                                             for a in (4, 3)))
+    dial = ("NODE host=node.local;realm=realm.local;peer:peer1.x,realm.local,1,0,30,1,0,-,-,-,-;"
+            "peer:peer2.x,realm.local,1,0,30,1,0,-,-,-,-;peer:peer3.x,realm.local,1,0,30,1,0,-,-,-,-;"
+            "app:4,1,0,b,0,0,-;app:4,1,0,b,0,1,-")
+    for spell in (str, str.upper, str.capitalize):
+        pred = dial + " | start ok,ok,ok | " + " | ".join(
+            f"rx {k} " + nodegen.cea(2001, spell(f"peer{k + 1}.x"), 2001 + 1000 * k, 268435464 + k, auth="4") for k in range(3))
+        out.append(pred + " | " + " | ".join(req(k, f"peer{k + 1}.x", "realm.local") for k in range(3)))
     oracle.meta = meta
     return out
 
